@@ -49,6 +49,13 @@ TRUST = [
     "includes it is modelled (member de-duplication)",
     "CPython f-string formatting of ints, float arithmetic on dyadic values (exact), the generic add()/validate() "
     "of generateDS objects (modelled as: append unless an equal Member exists)",
+    "translators/py2lean_section.py normalises equivalent surface shapes before matching (local variables renamed "
+    "bijectively; else after return; nested if = and; conditional-expression assignment; single-use temporaries "
+    "inlined; comparisons of len() with int literals; truth value of a list built in the function; extend/+= with a "
+    "comprehension = append loop; %s / str.format / str()+ = f-string; guard clause at the end of the function): "
+    "each rule is argued in the translator, two of them under assumptions -- str(x) == format(x, '') for the values "
+    "formatted into group names (ints), and looking up an attribute of a parameter (self.method) neither fails nor "
+    "runs code",
     "the interpreter's recursion limit is a model parameter `lim`, consumed only by get_actual_proximal (the "
     "sectioniser is iterative); the harness sets the limit relative to the call depth, stays >= 10 frames away from "
     "the threshold, and re-measures the frame offset on every run (evidence: frame_offset_measured)",
